@@ -323,6 +323,39 @@ def compare(mod, ref, data, abi="legacy"):
                 if norm(got_wo) != norm(exp_vals):
                     shape = ["pad" if d[0] == "pad" else d[1] + ("[%d]" % d[2] if d[0] == "chunk" else "") for d in descr]
                     out.append((sname, "argument list for a by-value %s parameter (legacy wasm ABI, %s) should be %r (slots %r); emitted code passes %r" % (sname, what, exp_vals, shape, got_wo)))
+        # ---- js.abi = spec: a by-value struct (more than one scalar) is passed as a pointer to its byte image ----
+        if abi == "spec" and res.get("args") is not None and not single:
+            toks = res["tokens"]
+            ptr_args = [g for g in res["args"] if isinstance(g, int) and not isinstance(g, bool) and g >= 1024 and g % 256 == 0]
+            imgs = res.get("images") or {}
+            cands = [p_ for p_ in ptr_args if str(p_) in imgs and [imgs[str(p_)]["size"], imgs[str(p_)]["align"]] == [size, align]]
+            # one of the pointers is the receive buffer (left untouched by the stub); the other must hold the struct's image
+            exp = {}
+            for path, kind, t, off, w in leaves:
+                if kind == "flag":
+                    exp[off] = 1
+                    continue
+                v = toks.get(path)
+                if kind == "enum":
+                    b = (int(v) % (1 << 32)).to_bytes(4, "little")
+                elif t.name in ("f32", "f64"):
+                    import struct as _st
+                    b = _st.pack("<f" if w == 4 else "<d", float(v))
+                elif v is True or v is False:
+                    b = bytes([1 if v else 0])
+                else:
+                    iv = int(v[1:]) if isinstance(v, str) else int(v)
+                    b = (iv % (1 << (8 * w))).to_bytes(w, "little")
+                for i_, bb in enumerate(b):
+                    exp[off + i_] = bb
+            ok_any = False
+            for p_ in cands:
+                by = imgs[str(p_)]["bytes"]
+                if all(o < len(by) and by[o] == bb for o, bb in exp.items()):
+                    ok_any = True
+            if not ok_any:
+                out.append((sname, "js.abi=spec: a by-value %s should be passed as a pointer to a %d-byte, %d-aligned buffer holding its repr(C) image %r; "
+                                   "emitted code passes %r with buffers %r" % (sname, size, align, exp, res["args"], {k_: (v_["size"], v_["align"], v_["bytes"][:size]) for k_, v_ in imgs.items()})))
     for e in data.get("errors", []):
         out.append(("probe", "emitted code threw while probing: %s" % e))
     return out
